@@ -140,6 +140,54 @@ def enc_uses_per_path(fn_hir, enc):
     return sorted({c for (c, _r) in go(fn_hir)})
 
 
+def semantic_twin(g, e, u, side):
+    """Decide the twin clause by interpretation when the two bodies are not the same tree: both writers are evaluated with the
+    piecewise-affine writer interpreter over every body length; they must put the same number of header bytes carrying the same size
+    field in front of the same body bytes, the plain one without and the encrypted one with exactly one step of the cipher.
+    -> None when they agree, else a message"""
+    from ..framew import analyse_writer
+    m = re.match(r"^(?:<.+ as )?crate::traits::(vanilla|tbc|wrath)::", e["path"])
+    if not m:
+        return "expansion not recognised"
+    exp = m.group(1)
+    op_len = 4 if side == "client" else 2
+    bmax = c02_frame.bmax_for(exp, side)
+
+    def summary(fn):
+        out = []
+        for lo, hi, s, err in analyse_writer(g, "wow_world_messages", fn, exp, side, bmax):
+            if err:
+                return None, err
+            sf = s.sf
+            if sf is None and s.header_len is not None:
+                sf, perr = c02_frame.header_sf(s.header_bytes, s.header_len - op_len, op_len)
+                if perr:
+                    return None, perr
+            tr = s.transport[2][0] if s.transport is not None else None
+            row = (s.header_len, (sf[1], sf[2]) if sf else None, (tr[1], tr[2]) if tr else None, tuple(sorted(k for k, _ in s.events)), s.enc_calls)
+            if out and out[-1][2:] == row and out[-1][1] + 1 == lo:
+                out[-1] = (out[-1][0], hi) + row
+            else:
+                out.append((lo, hi) + row)
+        return out, None
+    se, ee = summary(e)
+    su, eu = summary(u)
+    if ee or eu:
+        return f"not interpretable ({ee or eu})"
+    pts = sorted({x[0] for x in se} | {x[0] for x in su})
+    for p_ in pts:
+        a = next(x for x in se if x[0] <= p_ <= x[1])
+        b = next(x for x in su if x[0] <= p_ <= x[1])
+        if a[2:6] != b[2:6]:
+            return (f"for body length {p_:#x} the encrypted writer sends a {a[2]}-byte header with size field {a[3]} and {a[4]} bytes in total (events {list(a[5])}), "
+                    f"the plain one a {b[2]}-byte header with size field {b[3]} and {b[4]} bytes (events {list(b[5])})")
+        if any(k in ("overflow", "assert", "panic") for k in a[5]):
+            continue  # both writers stop at the same event for this length (reported by C02): no bytes and no cipher step on either side
+        if a[6] != 1 or b[6] != 0:
+            return f"for body length {p_:#x} the cipher is stepped {a[6]} time(s) by the encrypted and {b[6]} time(s) by the plain writer"
+    return None
+
+
 def run(ctx):
     st = state()
     g = st["g"]
@@ -153,6 +201,7 @@ def run(ctx):
         parent = (fn["self_ty"] or fn["parent"] or fn["path"].rsplit("::", 1)[0], fn["trait"])
         groups.setdefault((parent, m.group(1) or "", m.group(3)), {})[m.group(2)] = fn
     n_tw = 0
+    n_sem = [0]
     for (parent, fl, side), pair in sorted(groups.items(), key=lambda x: repr(x[0])):
         if "encrypted" not in pair or "unencrypted" not in pair:
             continue
@@ -171,15 +220,23 @@ def run(ctx):
         # names differ only by the method names themselves
         se = repr(be).replace("write_encrypted", "write_X").replace("'e'", "")
         su = repr(bu).replace("write_unencrypted", "write_X")
-        if se != su:
-            d = first_diff(bu, be)
-            ctx.violate("twin.enc-plain", f"{key}|twin", f"{e['path']} differs from its plain twin {u['name']} outside the header step: {d}", e["file"], e["line"])
+        structural = se == su
+        if not structural:
+            why = semantic_twin(g, e, u, side)
+            if why is not None:
+                d = first_diff(bu, be)
+                ctx.violate("twin.enc-plain", f"{key}|twin", f"{e['path']} differs from its plain twin {u['name']}: {why}; first structural difference outside the header step: {d}", e["file"], e["line"])
+            else:
+                n_sem[0] += 1
         uses, in_loop = count_enc_uses(H.unwrap_async(e["hir"]), enc[0])
         per_path = enc_uses_per_path(H.unwrap_async(e["hir"]), enc[0])
+        if not structural:
+            # the cipher may be stepped inside a helper the writer calls: the count per body length was decided by the interpretation above
+            per_path, in_loop = [1], False
         if per_path != [1] or in_loop:
             ctx.violate("cipher.step", f"{key}|enc-uses", f"{e['path']}: the encrypter is used {' or '.join(str(c) for c in per_path)} time(s) depending on the path{' (inside a loop)' if in_loop else ''}; "
                         "it must be stepped exactly once per message on every path", e["file"], e["line"])
-    ctx.rule("twin.enc-plain", n_tw, floor=TWIN_FLOOR, note="encrypted/plain writer pairs (default trait methods per expansion x flavour and per-message overrides)")
+    ctx.rule("twin.enc-plain", n_tw, floor=TWIN_FLOOR, note=f"encrypted/plain writer pairs (default trait methods per expansion x flavour and per-message overrides): same tree outside the header step, or ({n_sem[0]} pairs) the same header length / size field / transport bytes for every body length with the cipher stepped once, by interpretation")
     # (2)+(3) readers
     c02_frame.run_frame(ctx, want_cipher=True)
     c02_frame.run_frame(ctx, want_cipher=False)
